@@ -33,6 +33,10 @@ type c08Case struct {
 	Extra   bool   `json:"extra"`   // one more Do (with results) after the deciding one
 	Reps    int    `json:"reps"`
 	Hooks   bool   `json:"hooks"`
+	// values: the catalogue of value kinds (C16's) answered as declared result / declared data output and read
+	// back from the variables and from the next task's data inputs
+	Route    string `json:"route,omitempty"`
+	From, To int    `json:",omitempty"`
 }
 
 // start -> T(writes r1,r2; output o1) -> X -(r1>0)-> NA | default -> NB ; NA,NB declare property r1 and data input o1
@@ -125,6 +129,15 @@ func c08Cases(tier string, seed uint64) []fw.Case {
 			}
 			c.Name = fmt.Sprintf("errors/retry-seq%v-s%d-second%d", sq, succeed, c.Second)
 			cs = append(cs, fw.MkCase("errors", &c))
+		}
+	}
+	// what a successful answer stores, over the value kinds of the catalogue
+	nv := len(c16Values())
+	for _, route := range []string{"results", "objects"} {
+		for from := 0; from < nv; from += 10 {
+			c := c08Case{Kind: "values", Route: route, From: from, To: from + 10, Reps: 1}
+			c.Name = fmt.Sprintf("values/%s/%d", route, from)
+			cs = append(cs, fw.MkCase("values", &c))
 		}
 	}
 	return fw.Number(cs)
@@ -599,7 +612,18 @@ func init() {
 			}
 			for i := 0; i < cc.Reps && !v.Violated(); i++ {
 				fw.Rep(env, i, func(env *fw.Env) {
-					if cc.Kind == "first-wins" {
+					if cc.Kind == "values" {
+						tmp := fw.NewV(fw.Case{})
+						c16Engine(&c16Case{Kind: "engine", Route: cc.Route, From: cc.From, To: cc.To}, env, tmp)
+						for _, f := range tmp.Findings {
+							if f.Status == fw.Violation {
+								v.Violate("stored-"+f.Rule, f.Class, "%s", f.Msg)
+							} else {
+								v.Inconclusive(f.Rule, "%s", f.Msg)
+							}
+						}
+						v.Add("values", tmp.Stats["values"])
+					} else if cc.Kind == "first-wins" {
 						c08FirstWins(&cc, env, v)
 					} else {
 						c08Errors(&cc, env, v)
@@ -610,7 +634,7 @@ func init() {
 			v.Nontrivial = true
 			return v
 		},
-		Rule:        "answer histories per request: 1..3 Do calls x sequential / concurrent behind a barrier x payload {results, data objects, both} x names {declared, undeclared, mixed} x hooks off/on (concurrent ones repeated 30/300 times), checked with a porcupine write-once-register model over the Do call/return history and the observed effective marker, plus blocked-caller census, declared-only storage, downstream visibility (gateway branch, next task's properties and data inputs) and late Do; error histories: handler {none, skip, exit, retry n=0..3} x success on attempt 0..4 x extra Do; retry answers whose budget differs from answer to answer (all budget sequences of length 2..3 over 0..3; the k-th failing answer with budget b re-requests only while k-1 < b) x success attempt, followed by a second always-failing task on the same token (requested 1..budget+1 times); all cases non-trivial; distinct = descriptor hash",
+		Rule:        "answer histories per request: 1..3 Do calls x sequential / concurrent behind a barrier x payload {results, data objects, both} x names {declared, undeclared, mixed} x hooks off/on (concurrent ones repeated 30/300 times), checked with a porcupine write-once-register model over the Do call/return history and the observed effective marker, plus blocked-caller census, declared-only storage, downstream visibility (gateway branch, next task's properties and data inputs) and late Do; a catalogue of ~100 values of every kind (integer widths, floats, strings, booleans, byte slices, nested maps / slices / structs, pointers, nil) answered as declared result and as declared data output, read back in canonical form from the variables and the next task's data inputs; error histories: handler {none, skip, exit, retry n=0..3} x success on attempt 0..4 x extra Do; retry answers whose budget differs from answer to answer (all budget sequences of length 2..3 over 0..3; the k-th failing answer with budget b re-requests only while k-1 < b) x success attempt, followed by a second always-failing task on the same token (requested 1..budget+1 times); all cases non-trivial; distinct = descriptor hash",
 		Exhaustive:  func(string) bool { return true },
 		Assumptions: []string{"each Do carries a unique marker for a declared field so the effective answer identifies the call that won"},
 	})
